@@ -613,12 +613,75 @@ func stripConv(v ssa.Value) ssa.Value {
 }
 
 // fieldOf describes a FieldAddr/Field instruction as "pkg.Type.Field".
+// refStructFields: the fields the structs of the reference tree have (spec/decls.txt), by full type name; nil when the
+// declarations were not read. A struct type that is not among them is new on the tree that is analysed.
+var refStructFields map[string]map[string]bool
+var refTypes map[string]bool
+
+func fullTypeName(t types.Type) string {
+	if n, ok := t.(*types.Named); ok && n.Obj().Pkg() != nil {
+		return n.Obj().Pkg().Path() + "." + n.Obj().Name()
+	}
+	return ""
+}
+
+// gathered: fields of a reference struct that were gathered in a struct type of their own (S.data → S.text.data, with
+// the type of text new on this tree): the field is still the one the rules know as S.data, and its base is S's.
+func gathered(x *ssa.FieldAddr) (string, ssa.Value, bool) {
+	outer, isFA := x.X.(*ssa.FieldAddr)
+	if !isFA || refTypes == nil {
+		return "", nil, false
+	}
+	t := x.X.Type()
+	if p, ok := t.Underlying().(*types.Pointer); ok {
+		t = p.Elem()
+	}
+	tn := fullTypeName(t)
+	if tn == "" || refTypes[tn] {
+		return "", nil, false
+	}
+	ot := outer.X.Type()
+	if p, ok := ot.Underlying().(*types.Pointer); ok {
+		ot = p.Elem()
+	}
+	st, isSt := t.Underlying().(*types.Struct)
+	if !isSt || x.Field >= st.NumFields() {
+		return "", nil, false
+	}
+	name := st.Field(x.Field).Name()
+	on := fullTypeName(ot)
+	if on == "" || !refStructFields[on][name] {
+		return "", nil, false
+	}
+	ost, ok := ot.Underlying().(*types.Struct)
+	if !ok {
+		return "", nil, false
+	}
+	for i := 0; i < ost.NumFields(); i++ {
+		if ost.Field(i).Name() == name {
+			return "", nil, false
+		}
+	}
+	return shortName(on) + "." + name, outer.X, true
+}
+
+// faBase: the struct a field address belongs to (the enclosing reference struct for a gathered field).
+func faBase(fa *ssa.FieldAddr) ssa.Value {
+	if _, base, ok := gathered(fa); ok {
+		return base
+	}
+	return fa.X
+}
+
 func fieldOf(v ssa.Value) (string, bool) {
 	switch x := v.(type) {
 	case *ssa.FieldAddr:
 		t := x.X.Type()
 		if p, ok := t.Underlying().(*types.Pointer); ok {
 			t = p.Elem()
+		}
+		if name, _, ok := gathered(x); ok {
+			return name, true
 		}
 		return structFieldName(t, x.Field), true
 	case *ssa.Field:
